@@ -126,6 +126,15 @@ type ReplayFile struct {
 	MinFrom   int            `json:"minimised_from_tape_len,omitempty"`
 	MinEvals  int            `json:"minimiser_evaluations,omitempty"`
 	Note      string         `json:"note,omitempty"`
+	Prelude   *Prelude       `json:"prelude,omitempty"`
+}
+
+// Prelude names the cases that ran in the same process before the recorded
+// one: needed when the verdict depends on state that survives between calls.
+type Prelude struct {
+	Worker   int64 `json:"worker"`
+	NWorkers int64 `json:"nworkers"`
+	From     int64 `json:"from"`
 }
 
 // Failure is what a worker reports for a violating case.
@@ -139,6 +148,9 @@ type Failure struct {
 	MinEvals int            `json:"min_evals"`
 	Count    int64          `json:"count"`
 	Unstable bool           `json:"unstable,omitempty"` // found outside the deterministic core: not replay-verified
+	Worker   int64          `json:"worker"`
+	NWorkers int64          `json:"nworkers"`
+	From     int64          `json:"from"`
 }
 
 // WorkerReport is written by each worker process.
